@@ -48,9 +48,86 @@ class RepoCode:
             from ombott.router.radirouter import RadiRouter
             from ombott.response import _HTTP_STATUS_LINES
             from ombott import error_render
+            from ombott.common_helpers import cookie_encode, touni
             cls._m = dict(Ombott=Ombott, Globals=Globals, HTTPResponse=HTTPResponse, HTTPError=HTTPError,
-                          RadiRouter=RadiRouter, LINES=_HTTP_STATUS_LINES, error_render=error_render)
+                          RadiRouter=RadiRouter, LINES=_HTTP_STATUS_LINES, error_render=error_render,
+                          cookie_encode=cookie_encode, touni=touni)
+            cls._m['STATE'] = discover_module_state()
         return cls._m
+
+
+def discover_module_state():
+    """module-level and class-level mutable containers of the package under test:
+    [(qualified name, object, lazy)], lazy = empty now (called right after the first import), i.e. a
+    cache that is filled on first use.  Same walk as harness/tables/tsprops.module_state."""
+    import sys
+    root = os.path.join(os.path.realpath(core.REPO), 'ombott') + os.sep
+    out = []
+    for mname, mod in sorted(sys.modules.items()):
+        f = getattr(mod, '__file__', None)
+        if not f or not os.path.realpath(f).startswith(root):
+            continue
+        for k, v in sorted(vars(mod).items()):
+            if k.startswith('__'):
+                continue
+            if isinstance(v, (list, dict, set)):
+                out.append(('%s.%s' % (mname, k), v, len(v) == 0))
+            elif isinstance(v, type) and v.__module__ == mname:
+                for ck, cv in sorted(vars(v).items()):
+                    if not ck.startswith('__') and isinstance(cv, (list, dict, set)):
+                        out.append(('%s.%s.%s' % (mname, k, ck), cv, len(cv) == 0))
+    return out
+
+
+def cold_reset():
+    """empty every lazily filled module-level cache: the next run starts like a cold process"""
+    for name, obj, lazy in RepoCode.get()['STATE']:
+        if lazy:
+            obj.clear()
+
+
+def _snap(x, depth=0):
+    """structural snapshot without object ids; functions by name and closure contents"""
+    if depth > 5:
+        return type(x).__name__
+    if isinstance(x, dict):
+        return ('dict', tuple(sorted((repr(k), _snap(v, depth + 1)) for k, v in x.items())))
+    if isinstance(x, (list, tuple)):
+        return (type(x).__name__, tuple(_snap(v, depth + 1) for v in x))
+    if isinstance(x, (set, frozenset)):
+        return ('set', tuple(sorted(repr(v) for v in x)))
+    if isinstance(x, (str, bytes, int, float, bool, type(None))):
+        return x
+    if isinstance(x, re.Pattern):
+        return ('re', x.pattern)
+    if isinstance(x, type):
+        return ('class', x.__name__)
+    if callable(x) and hasattr(x, '__code__'):
+        cells = getattr(x, '__closure__', None) or ()
+        inner = []
+        for c in cells:
+            try:
+                inner.append(_snap(c.cell_contents, depth + 1))
+            except ValueError:
+                inner.append('<empty cell>')
+        return ('fn', getattr(x, '__qualname__', '?'), tuple(inner), _snap(getattr(x, '__defaults__', None), depth + 1))
+    slots = []
+    for c in type(x).__mro__:
+        slots += [sl for sl in getattr(c, '__slots__', ()) if sl not in ('__dict__', '_ts', 'headers')]
+    d = dict(getattr(x, '__dict__', {}) or {})
+    for sl in slots:
+        try:
+            d[sl] = getattr(x, sl)
+        except AttributeError:
+            pass
+    if isinstance(x, BaseException):
+        d['__traceback__'] = x.__traceback__ is not None
+    return (type(x).__name__, _snap(d, depth + 1)) if d else type(x).__name__
+
+
+def module_snapshot():
+    """what the module-level / class-level containers of the package hold now"""
+    return tuple((name, _snap(obj)) for name, obj, lazy in RepoCode.get()['STATE'])
 
 
 def status_line(code):
@@ -67,6 +144,10 @@ def show(v):
         return 'b1' if v else 'b0'
     if isinstance(v, int):
         return 'i%d' % v
+    if isinstance(v, float):
+        return 'f%r' % v
+    if isinstance(v, dict):
+        return 'd' + ';'.join('%s=%s' % (k, show(x)) for k, x in sorted(v.items()))
     if isinstance(v, bytes):
         return 's' + v.decode('latin1')
     if isinstance(v, str):
@@ -129,6 +210,9 @@ def render_resp(status, headers, body):
 # --------------------------------------------------------------------------------------
 # requests
 
+SHOWN = '\x00'      # marks a model value that is already in `show` form
+
+
 def simple_pairs(s, sep):
     out = {}
     for part in s.split(sep):
@@ -140,6 +224,8 @@ def simple_pairs(s, sep):
 
 
 def req_path(req):
+    if req.get('path') is not None:
+        return req['path']
     if req['kind'] == 'badpath':
         return '/r%d\xff' % req['rid']
     if req['kind'] == 'notfound':
@@ -192,6 +278,29 @@ def content_type(req):
     return req.get('ctype')
 
 
+SECRET = 'k3y'
+
+
+def signed_text(name, payload):
+    """the Cookie / Set-Cookie text of a signed cookie (pure functions of the repository and stdlib)"""
+    from http.cookies import SimpleCookie
+    m = RepoCode.get()
+    c = SimpleCookie()
+    c[name] = m['touni'](m['cookie_encode']((name, payload), SECRET))
+    return c[name].OutputString()
+
+
+def edited(payload, marker):
+    """what the handler's in-place edit makes of the decoded payload"""
+    if isinstance(payload, list):
+        return payload + [marker]
+    return dict(payload, edit=marker)
+
+
+def kwargs_text(kw):
+    return ';'.join('%s=%s' % (k, show(v)) for k, v in sorted(kw.items()))
+
+
 def wsgi_env(req):
     """the environ a server would hand over; a fresh dict and fresh streams on every call"""
     body = wire_body(req)
@@ -204,8 +313,11 @@ def wsgi_env(req):
         env['CONTENT_LENGTH'] = str(len(body))
     if content_type(req) is not None:
         env['CONTENT_TYPE'] = content_type(req)
-    if req.get('cookie'):
-        env['HTTP_COOKIE'] = req['cookie']
+    cookie = req.get('cookie') or ''
+    for name, payload in sorted((req.get('signed') or {}).items()):
+        cookie = (cookie + '; ' if cookie else '') + signed_text(name, payload)
+    if cookie:
+        env['HTTP_COOKIE'] = cookie
     for k, v in (req.get('hdrs') or {}).items():
         env['HTTP_' + k.upper().replace('-', '_')] = v
     return env
@@ -238,6 +350,9 @@ def model_env(req):
     elif (req.get('ctype') or '').startswith('application/x-www-form-urlencoded'):
         for k, v in simple_pairs(req.get('body', ''), '&').items():
             d['#f:' + k] = v
+    for name, pl in (req.get('signed') or {}).items():
+        d['#sc:' + name] = SHOWN + show(pl)
+    d['#kwargs'] = kwargs_text(req.get('kwargs') or {})
     d['#body'] = payload(req)
     d['#url'] = 'http://h' + urllib.parse.quote(req_path(req)) + ('?' + qs if qs else '')
     return d
@@ -266,7 +381,7 @@ def case_apps(case):
     ids = list(case.get('apps', []))
     for tid in sorted(case['threads']):
         for it in case['threads'][tid]:
-            if it[0] == 'construct':
+            if it[0] in ('construct', 'poke', 'pokeattr', 'idle'):
                 ids.append(it[1])
     for r in case_reqs(case):
         for op in r.get('ops') or []:
@@ -286,8 +401,14 @@ def enc_dict(d):
 
 def enc_op(op, cfgs=None):
     k = op[0]
-    if k in ('path', 'method', 'body', 'url', 'rdstatus', 'copy'):
+    if k in ('path', 'method', 'body', 'url', 'rdstatus', 'copy', 'kwargs', 'urlargs'):
         return [k]
+    if k == 'scookie':
+        return [k, hs(op[1])]
+    if k == 'scookie_edit':
+        # read, edit in place, set again, read again
+        return ['scookie', hs(op[1]), 'setcookie', hs(op[1]), hs(signed_text(op[1], edited(op[2], op[3]))),
+                'scookie', hs(op[1])]
     if k in ('query', 'cookie', 'envget', 'form', 'rdhdr', 'ctype'):
         return [k, hs(op[1])]
     if k == 'file':
@@ -333,6 +454,8 @@ def enc_out(out):
         return ['failform', hs('BodySizeError')]
     if k == 'failmultipart':
         return ['failmultipart', hs('BodyParsingError')]
+    if k == 'redirect':
+        return ['redirect', hs(out[1]), hs(status_line(303))]
     raise ValueError(out)
 
 
@@ -372,6 +495,10 @@ def enc_items(items, cfgs=None):
     for it in items:
         if it[0] == 'serve':
             toks += ['serve'] + enc_req(it[1], cfgs)
+        elif it[0] in ('poke', 'pokeattr'):
+            toks += [it[0], str(it[1]), hs(it[2]), hs(it[3])]
+        elif it[0] == 'idle':
+            toks += ['idle', str(it[1])]
         else:
             toks += ['construct', str(it[1])]
     return toks
@@ -443,10 +570,15 @@ class World:
             app.add_hook('after_request', lambda _a=app_id, _ops=cfg['after']: h_hook(world, _a, _ops))
         seen = set()
         for r in self.reqs:
-            if r['app'] != app_id or r['rid'] in seen:
+            if r['app'] != app_id or (r['rid'] in seen and not r.get('rule')):
                 continue
             seen.add(r['rid'])
-            if r['kind'] == 'handler':
+            if r['kind'] == 'handler' and r.get('rule'):
+                key = (r['rule'], r['method'])
+                if key not in seen:       # one route object for the whole family of requests
+                    seen.add(key)
+                    app.route(r['rule'], method=r['method'], callback=self.make_handler(app_id, r))
+            elif r['kind'] == 'handler':
                 app.route('/r%d' % r['rid'], method=r['method'], callback=self.make_handler(app_id, r))
             elif r['kind'] == 'notallowed':
                 app.route('/r%d' % r['rid'], method='PUT', callback=lambda: 'never')
@@ -456,7 +588,8 @@ class World:
     def make_handler(self, app_id, req):
         world = self
 
-        def handler():
+        def handler(**kw):
+            world.tl.kw = kw
             return h_script(world, app_id, req)
         return handler
 
@@ -477,11 +610,32 @@ class World:
         for it in items:
             if it[0] == 'serve':
                 self.serve(it[1])
+            elif it[0] == 'poke':
+                self.apps[it[1]].request[it[2]] = it[3]          # BaseRequest.__setitem__ on the idle request
+            elif it[0] == 'pokeattr':
+                setattr(self.apps[it[1]].request, it[2], it[3])   # BaseRequest.__setattr__
+            elif it[0] == 'idle':
+                self.tl.obs.append((it[1], 'i:' + self.idle_view(it[1])))
             else:
                 self.construct(it[1])
 
+    def idle_view(self, app_id):
+        """sorted items of the environ of the application's idle request; a request object shows as the
+        application it is the `.request` of"""
+        env = self.apps[app_id].request.environ
+        out = []
+        for k, v in env.items():
+            if isinstance(v, str):
+                out.append('%s=%s' % (k, show(v)))
+            else:
+                owner = [a for a, ap in self.apps.items() if ap.request is v]
+                out.append('%s=s%s' % (k, '<request %d>' % owner[0] if owner else '<' + type(v).__name__ + '>'))
+        return ';'.join(sorted(out))
+
     def run(self, repo, timeout=20.0, label_only=False):
         case = self.case
+        if case.get('cold', True):
+            cold_reset()          # lazily filled module-level caches start empty, as in a new process
         for a in case.get('apps', []):
             self.construct(a)
         tids = sorted(case['threads'])
@@ -492,6 +646,7 @@ class World:
                       registry=self.reg, timeout=timeout, label_only=label_only)
         r.run()
         self.sched = r
+        self.module_state = module_snapshot()
         for i, e in enumerate(r.errors):
             if e:
                 self.obs.setdefault(i, []).append((-1, 'x:' + e))
@@ -535,6 +690,21 @@ def run_ops(world, app_id, ops, copies):
             obs.append((app_id, 'r:' + show(upload_field(rq.files.get(op[1]), op[2]))))
         elif k == 'url':
             obs.append((app_id, 'r:' + show(rq.url)))
+        elif k == 'kwargs':
+            obs.append((app_id, 'r:' + show(kwargs_text(getattr(world.tl, 'kw', None) or {}))))
+        elif k == 'urlargs':
+            obs.append((app_id, 'r:' + show(kwargs_text(rq.url_args))))
+        elif k == 'scookie':
+            obs.append((app_id, 'r:' + show(SHOWN + show(rq.get_cookie(op[1], secret=SECRET)))))
+        elif k == 'scookie_edit':
+            v = rq.get_cookie(op[1], secret=SECRET)
+            obs.append((app_id, 'r:' + show(SHOWN + show(v))))
+            if isinstance(v, list):
+                v.append(op[3])               # edit the decoded payload in place
+            elif isinstance(v, dict):
+                v['edit'] = op[3]
+            rs.set_cookie(op[1], v, secret=SECRET)
+            obs.append((app_id, 'r:' + show(SHOWN + show(rq.get_cookie(op[1], secret=SECRET)))))
         elif k == 'status':
             rs.status = op[1]
         elif k == 'rdstatus':
@@ -608,6 +778,9 @@ def h_script(world, app_id, req):
         return str(rq.json)
     if k in ('failform', 'failmultipart'):
         return str(rq.forms.get('f'))
+    if k == 'redirect':
+        from ombott.ombott import redirect       # the module level helper (works on Globals.request/response)
+        redirect(out[1])
     raise ValueError(out)
 
 
